@@ -102,7 +102,8 @@ func runC20Child(c *Ctx) {
 	}
 }
 
-const watchdog = 10 * time.Second // no request completes anywhere for this long => deadlock
+const watchdog = 10 * time.Second   // a whole round of first requests / a store history does not finish => deadlock
+const reqDeadline = 6 * time.Second // a single request in flight for this long => hung, even while others progress
 
 type stressEnv struct {
 	srv      *samlidp.Server
@@ -207,6 +208,11 @@ func stressOps() []stressOp {
 		{"POST /services/{id}", 2, hs(func(e *stressEnv, r *rand.Rand) reqSpec {
 			return reqSpec{method: "POST", path: "/services/sp3", body: spMetadataXML(entityOf(3), []string{acsOf(3)})}
 		})},
+		{"PUT /services/{id} (replace: same or other entity ID)", 8, hs(func(e *stressEnv, r *rand.Rand) reqSpec {
+			k := 2 + r.Intn(2)
+			ent := entityOf(k + 3*r.Intn(2)) // the stored service of this id may have either entity ID
+			return reqSpec{method: "PUT", path: fmt.Sprintf("/services/sp%d", k), body: spMetadataXML(ent, []string{acsOf(k)})}
+		})},
 		{"DELETE /services/{id}", 5, hs(func(e *stressEnv, r *rand.Rand) reqSpec {
 			return reqSpec{method: "DELETE", path: fmt.Sprintf("/services/sp%d", 2+r.Intn(2))}
 		})},
@@ -215,6 +221,9 @@ func stressOps() []stressOp {
 		{"GET /metadata", 4, hs(func(e *stressEnv, r *rand.Rand) reqSpec { return reqSpec{method: "GET", path: "/metadata"} })},
 		{"PUT /shortcuts/{id}", 4, hs(func(e *stressEnv, r *rand.Rand) reqSpec {
 			return reqSpec{method: "PUT", path: "/shortcuts/tmp", body: `{"service_provider":"` + entityOf(2) + `","url_suffix_as_relay_state":true}`}
+		})},
+		{"PUT /shortcuts/{id} (replace)", 3, hs(func(e *stressEnv, r *rand.Rand) reqSpec {
+			return reqSpec{method: "PUT", path: "/shortcuts/tmp", body: `{"service_provider":"` + entityOf(1+r.Intn(3)) + `","relay_state":"rs"}`}
 		})},
 		{"GET /shortcuts/{id}", 3, hs(func(e *stressEnv, r *rand.Rand) reqSpec { return reqSpec{method: "GET", path: "/shortcuts/sc"} })},
 		{"GET /shortcuts/", 3, hs(func(e *stressEnv, r *rand.Rand) reqSpec { return reqSpec{method: "GET", path: "/shortcuts/"} })},
@@ -263,6 +272,73 @@ func stuckDump() string {
 	return strings.Join(keep, "\n\n")
 }
 
+// timedServe runs one request with the per-request deadline; hung = it did not return
+func timedServe(e *stressEnv, q reqSpec) (hung bool, panicked any) {
+	type out struct{ p any }
+	ch := make(chan out, 1)
+	go func() {
+		_, p := serve(e.srv, q)
+		ch <- out{p}
+	}()
+	select {
+	case o := <-ch:
+		return false, o.p
+	case <-time.After(reqDeadline):
+		return true, nil
+	}
+}
+
+type seqStep struct {
+	name string
+	q    reqSpec
+}
+
+// keySequences: state-dependent handler paths, one key at a time: create, replace
+// with the same / another entity ID, read, use, delete, delete again (missing);
+// user with / without password; shortcut create / replace / launch / delete.
+func keySequences(e *stressEnv, withBcrypt bool) []seqStep {
+	md := func(ent int) string { return spMetadataXML(entityOf(ent), []string{acsOf(ent)}) }
+	sso := func(ent int) reqSpec {
+		return reqSpec{method: "POST", path: "/sso", cookie: e.cookie,
+			form: url.Values{"SAMLRequest": {authnRequestB64(entityOf(ent), acsOf(ent), "id-seq", e.now)}}}
+	}
+	steps := []seqStep{
+		{"seq PUT /services/{id} (new)", reqSpec{method: "PUT", path: "/services/sq", body: md(7)}},
+		{"seq PUT /services/{id} (replace, other entity ID)", reqSpec{method: "PUT", path: "/services/sq", body: md(8)}},
+		{"seq PUT /services/{id} (replace, same entity ID)", reqSpec{method: "PUT", path: "/services/sq", body: md(8)}},
+		{"seq GET /services/{id}", reqSpec{method: "GET", path: "/services/sq"}},
+		{"seq POST /sso for the replaced entity ID", sso(7)},
+		{"seq POST /sso for the new entity ID", sso(8)},
+		{"seq GET /metadata", reqSpec{method: "GET", path: "/metadata"}},
+		{"seq DELETE /services/{id} (existing)", reqSpec{method: "DELETE", path: "/services/sq"}},
+		{"seq DELETE /services/{id} (missing)", reqSpec{method: "DELETE", path: "/services/sq"}},
+		{"seq POST /sso after delete", sso(8)},
+		{"seq PUT /users/{id} (new, no password)", reqSpec{method: "PUT", path: "/users/sq", body: `{"name":"sq","email":"sq@example.com"}`}},
+		{"seq PUT /users/{id} (existing, no password)", reqSpec{method: "PUT", path: "/users/sq", body: `{"name":"sq","email":"sq2@example.com"}`}},
+	}
+	if withBcrypt {
+		steps = append(steps,
+			seqStep{"seq PUT /users/{id} (existing, with password)", reqSpec{method: "PUT", path: "/users/sq", body: `{"name":"sq","password":"pwq"}`}},
+			seqStep{"seq PUT /users/{id} (password retained)", reqSpec{method: "PUT", path: "/users/sq", body: `{"name":"sq","email":"sq3@example.com"}`}},
+			seqStep{"seq POST /login (right password)", reqSpec{method: "POST", path: "/login", form: url.Values{"user": {"sq"}, "password": {"pwq"}}}})
+	}
+	steps = append(steps,
+		seqStep{"seq GET /users/{id}", reqSpec{method: "GET", path: "/users/sq"}},
+		seqStep{"seq DELETE /users/{id} (existing)", reqSpec{method: "DELETE", path: "/users/sq"}},
+		seqStep{"seq DELETE /users/{id} (missing)", reqSpec{method: "DELETE", path: "/users/sq"}},
+		seqStep{"seq GET /users/{id} (missing)", reqSpec{method: "GET", path: "/users/sq"}},
+		seqStep{"seq PUT /shortcuts/{id} (new)", reqSpec{method: "PUT", path: "/shortcuts/sq", body: `{"service_provider":"` + entityOf(1) + `"}`}},
+		seqStep{"seq GET /login/{shortcut} +cookie", reqSpec{method: "GET", path: "/login/sq", cookie: e.cookie}},
+		seqStep{"seq PUT /shortcuts/{id} (replace)", reqSpec{method: "PUT", path: "/shortcuts/sq", body: `{"service_provider":"` + entityOf(9) + `","url_suffix_as_relay_state":true}`}},
+		seqStep{"seq GET /login/{shortcut}/{suffix} +cookie (unregistered target)", reqSpec{method: "GET", path: "/login/sq/x", cookie: e.cookie}},
+		seqStep{"seq DELETE /shortcuts/{id} (existing)", reqSpec{method: "DELETE", path: "/shortcuts/sq"}},
+		seqStep{"seq DELETE /shortcuts/{id} (missing)", reqSpec{method: "DELETE", path: "/shortcuts/sq"}},
+		seqStep{"seq GET /login/{shortcut} (missing shortcut)", reqSpec{method: "GET", path: "/login/sq", cookie: e.cookie}},
+		seqStep{"seq DELETE /sessions/{id} (missing)", reqSpec{method: "DELETE", path: "/sessions/none"}},
+		seqStep{"seq GET /sessions/{id} (missing)", reqSpec{method: "GET", path: "/sessions/none"}})
+	return steps
+}
+
 func stressServer(seed int64, dur time.Duration, nobcrypt bool) stressResult {
 	res := stressResult{Ops: map[string]int{}, Workers: map[string]int{}}
 	ops := stressOps()
@@ -274,12 +350,28 @@ func stressServer(seed int64, dur time.Duration, nobcrypt bool) stressResult {
 	var mu sync.Mutex // protects res.Ops / res.Panics (harness state only)
 	for round := 0; time.Now().Before(deadline); round++ {
 		e := newStressEnv(nobcrypt)
+		// state-dependent paths first, one request at a time, each with its own deadline
+		for _, st := range keySequences(e, !nobcrypt && round%3 == 0) {
+			hung, p := timedServe(e, st.q)
+			res.Ops[st.name]++
+			res.Total++
+			if p != nil && len(res.Panics) < 5 {
+				res.Panics = append(res.Panics, fmt.Sprintf("%s: panic: %v", st.name, p))
+			}
+			if hung {
+				res.Deadlock = true
+				res.Dump = stuckDump()
+				res.Stuck = []string{st.name + " (sequential, no other request in flight; did not return within " + reqDeadline.String() + ")"}
+				return res
+			}
+		}
 		nw := 2 + round%7 // 2..8 goroutines
 		res.Workers[fmt.Sprint(nw)]++
 		res.Rounds++
 		roundEnd := time.Now().Add(700 * time.Millisecond)
 		var progress int64
 		current := make([]atomic.Value, nw)
+		started := make([]int64, nw)
 		var wg sync.WaitGroup
 		done := make(chan struct{})
 		start := make(chan struct{})
@@ -302,7 +394,9 @@ func stressServer(seed int64, dur time.Duration, nobcrypt bool) stressResult {
 						x -= o.weight
 					}
 					current[w].Store(op.name)
+					atomic.StoreInt64(&started[w], time.Now().UnixNano())
 					_, p := op.run(e, r)
+					atomic.StoreInt64(&started[w], 0)
 					current[w].Store("")
 					if p != nil && len(panics) < 3 {
 						panics = append(panics, fmt.Sprintf("%s: panic: %v", op.name, p))
@@ -336,13 +430,25 @@ func stressServer(seed int64, dur time.Duration, nobcrypt bool) stressResult {
 					stuck = true
 					break watch
 				}
+				// a single request that does not return is a failure even while the others progress
+				now := time.Now().UnixNano()
+				for w := 0; w < nw; w++ {
+					if s0 := atomic.LoadInt64(&started[w]); s0 != 0 && now-s0 > int64(reqDeadline) {
+						stuck = true
+						break watch
+					}
+				}
 			}
 		}
 		if stuck {
 			res.Deadlock = true
 			res.Dump = stuckDump()
+			now := time.Now().UnixNano()
 			for w := 0; w < nw; w++ {
 				if s, _ := current[w].Load().(string); s != "" {
+					if s0 := atomic.LoadInt64(&started[w]); s0 != 0 {
+						s += fmt.Sprintf(" (in flight for %.1fs)", float64(now-s0)/1e9)
+					}
 					res.Stuck = append(res.Stuck, s)
 				}
 			}
@@ -825,7 +931,7 @@ func runC20(c *Ctx) {
 		switch j.mode {
 		case "stress", "first":
 			add(j.name+"/no_deadlock", !o.res.Deadlock, in, map[string]any{"deadlock": o.res.Deadlock,
-				"watchdog": watchdog.String(), "requests_in_flight": o.res.Stuck, "goroutines": o.res.Dump, "requests_completed": o.res.Total})
+				"watchdog": watchdog.String(), "per_request_deadline": reqDeadline.String(), "requests_in_flight": o.res.Stuck, "goroutines": o.res.Dump, "requests_completed": o.res.Total})
 			add(j.name+"/no_panic", len(o.res.Panics) == 0, in, map[string]any{"panics": o.res.Panics})
 		case "lin":
 			add(j.name+"/linearizable", o.res.NonLin == "" && !o.res.Hung, in, map[string]any{"histories": o.res.Histories,
